@@ -563,7 +563,8 @@ func judgeText(mem, txt, stripped *reflNode, res *vh.Result, caseNo int, src, te
 // runNested: the stream; terms are appended to cf, cases / failures to res
 func runNested(r *vh.Rand, cfg *vh.Config, res *vh.Result, cf *vh.CasesFile, caseNo *int, evals *int) {
 	n := cfg.Scale(50, 800)
-	for u := 0; u < n; u++ {
+	pins := pinnedClashTrees()
+	for u := -len(pins); u < n; u++ {
 		genAST = r.Chance(25)
 		env := genEnum(r)
 		kind := "object"
@@ -572,10 +573,19 @@ func runNested(r *vh.Rand, cfg *vh.Config, res *vh.Result, cf *vh.CasesFile, cas
 		}
 		counter := 0
 		depth := 2
-		if u%8 == 0 {
+		if u >= 0 && u%8 == 0 {
 			depth = 3 // pinned: inline types nested four levels deep (schema names with three underscores; seeded C04-H)
 		}
 		s := genNSchema(r, env, kind, depth, &counter)
+		var pin *clashTree
+		if u < 0 {
+			// pinned: client property names through flatten levels (/repo 96a1ec3)
+			pin = &pins[u+len(pins)]
+			s, env = pin.s, theEnum
+			res.Count("nested-pinned-client-names")
+		} else {
+			dedupFields(s.Fields) // a clash is not a valid package: the flatten flag is dropped
+		}
 		hasInline := false
 		for _, f := range s.Fields {
 			hasInline = hasInline || f.Inl != nil
@@ -607,6 +617,23 @@ func runNested(r *vh.Rand, cfg *vh.Config, res *vh.Result, cf *vh.CasesFile, cas
 			continue
 		}
 		rt := reflectTree(md)
+		// the names check of the reader against the model's (tree_names_ok) on every compiled tree
+		clash := isClientNameClash(rt.firstErr())
+		cf.Terms = append(cf.Terms, fmt.Sprintf("C04Names %s %s %s", fixedRefsTerm(), mtreeTerm(md), vh.BoolTerm(clash)))
+		res.Cases = append(res.Cases, vh.CaseRec{Case: *caseNo, Stream: "client-names", Input: input, Impl: map[string]any{"reader_refuses_name_clash": clash, "error": rt.firstErr()}})
+		res.Count("client-names")
+		if clash {
+			res.Count("client-names-clash-refused")
+		}
+		if pin != nil && pin.clash {
+			if !clash {
+				res.Fail(vh.Failure{Case: *caseNo, Stream: "client-names", Sig: "C04 client names: a package whose client property names clash through flattening (" + pin.what + ") is not refused by the reader",
+					Clause: "valid j5s packages (client property names of an object pairwise different through flatten levels); the reader refuses the others", Input: input,
+					Got: map[string]any{"reflects": rt.ok(), "error": rt.firstErr()}, Want: "client properties of <object>: property name is used twice"})
+			}
+			*caseNo++
+			continue
+		}
 		refl := "None"
 		if rt.ok() {
 			refl = "(Some " + rt.term(env, res) + ")"
